@@ -150,6 +150,18 @@ func restorePieces(
 	} else if err != nil {
 		return nil, 0, fmt.Errorf("get or set piece metadata: %s", err)
 	}
+	if len(md.pieces) != numPieces {
+		// The status file on disk does not describe this torrent. This happens
+		// when the process died after creating the file but before writing it:
+		// the empty file would otherwise read as "all zero pieces complete".
+		// Start over with every piece empty.
+		log.Errorf(
+			"Piece status of %s has %d entries, expected %d: resetting", d.Hex(), len(md.pieces), numPieces)
+		md = newPieceStatusMetadata(pieces)
+		if _, err := cads.Download().SetMetadata(d.Hex(), md); err != nil {
+			return nil, 0, fmt.Errorf("reset piece metadata: %s", err)
+		}
+	}
 	for _, p := range md.pieces {
 		if p.status == _complete {
 			numComplete++
